@@ -44,6 +44,20 @@ VALUES = {
 EVAL_AT = []
 
 
+def _replay_do_mac(vname, val):
+    """Through the whole pipeline: (do-mac 'VALUE) evaluated by hy.eval must give what evaluating the promoted value gives."""
+    import types
+    try:
+        form = Expression([Symbol("do-mac"), Expression([Symbol("quote"), hy.as_model(val)])])
+        ns = {"u_sym": "S", "u_f": lambda x: ("called", x)}
+        got = hy.eval(form, dict(ns), module=types.ModuleType("hv_c16r"))
+        want = hy.eval(hy.as_model(val), dict(ns), module=types.ModuleType("hv_c16r"))
+        same = type(got) is type(want) and (got == want or (got != got and want != want))
+        return {"confirmed": not same, "input": hy.repr(form).lstrip("'"), "observed": repr(got), "expected": repr(want)}
+    except Exception as e:  # noqa: BLE001
+        return {"confirmed": False, "error": f"{type(e).__name__}: {e}"[:200]}
+
+
 def stub_eval(outcome, value=None):
     def ctx(comp):
         @contextlib.contextmanager
@@ -133,7 +147,8 @@ def run(chk):
             (out.result._expr is None) == (want.result._expr is None)
         chk.case(("do-mac-value", vname))
         chk.ob(f"staging/do-mac/value {vname}: emission == compilation of as_model(value)", ok, "structural", "proved",
-               detail=(sx.show(out.result) if out.ok else repr(out.exc)) + " vs " + (sx.show(want.result) if want.ok else repr(want.exc)))
+               detail=(sx.show(out.result) if out.ok else repr(out.exc)) + " vs " + (sx.show(want.result) if want.ok else repr(want.exc)),
+               replay=None if ok else _replay_do_mac(vname, val))
     # defmacro
     from hy.reader import mangle
     import hy.macros as hmac
